@@ -8,10 +8,10 @@ modes, tiny widths and zero limits: exit status 0, no panic text, no hang.
 import os
 
 from .. import machine as M
-from ..core import parallel_map, b64
+from ..core import parallel_map, b64, hx, unhxs, LEAN, LineProc
 
 DRIVERS = ["drv_machine"]
-GENERATED = ["Handlers", "Markers", "PanicInventory"]
+GENERATED = ["Handlers", "Markers", "PanicInventory", "Startup"]
 
 HOSTILE = ["@@ foo @@", "@@ -1 +99999999999999999999999 @@", "@@ -٣ +1 @@", "diff --git ", "--- \"", "+++ \"", "@@", "@@@", "@@ @@",
            "@@ -1,2 @@", "@@ -0,0 +0,0 @@", "@@ -18446744073709551615,1 +1 @@", "diff --git a b", "diff --git a/ b/", "diff --cc ",
@@ -183,6 +183,223 @@ def gen_args(rng):
     return a
 
 
+# ---------------------------------------------------------------------------------------------------------------------
+# (2e) start-up: the values of --width / --wrap-max-lines / --max-line-length / --tabs / the line-number formats, model
+#      (DeltaModel/Startup.lean through Driver/Startup.lean: ok | fatal | PANIC, and the computed width, max_line_length,
+#      tab width) against the real debug binary (`--show-config`: exit status 0 / clean refusal / panic, and the printed values),
+#      then the same option set on a small diff (the property's oracle: exit 0 or a clean refusal, never a crash).
+
+U64 = 2 ** 64
+WS = [" ", "  ", "\t", "\u00a0", "\u3000", "\u2003", "\u0085", "\u2028", "\n", "\u1680", "\u205f"]
+NOT_WS = ["\u200b", "\ufeff", "\u180e"]
+WIDTH_GARBAGE = ["", " ", "-", "--1", "1-", "1--1", "1-2-3", "-1-1", "+-1", "-+1", "５", "1e3", "0x10", "1_000", "١٠", "9" * 40, "-" + "9" * 40,
+                 "--", "- 5", " -5 ", "5 - 5", "5-5", "80-81", "-80", "-81", "-0", "0-0", "+0", "+", "Variable", " variable", "variable ", "5-",
+                 "9223372036854775807-9223372036854775808", "9223372036854775807--1", "0-9223372036854775808", "-9223372036854775808",
+                 "9223372036854775808-1", "1-9223372036854775809", "−10", "10−" + "3", "4 0", "4 0"]
+WRAP_MAX = ["unlimited", "∞", "inf", "infinity", "infx", "in", "Unlimited", " unlimited", "∞ ", "", "0", "1", "2", "+3", "-1", "+", " 1", "1 ", "١",
+            "1e3", "007", str(U64 - 1), str(U64 - 2), str(U64), "000" + str(U64 - 1), "+" + str(U64 - 1), str(10 ** 17), str(10 ** 12 - 1),
+            str(10 ** 12), str(10 ** 12 + 1), str(2 ** 40), str(2 ** 41), str(2 ** 56), str(2 ** 63), "4611686018427387904"]
+LN_FORMATS = ["{nm:>999999}", "{np:>18446744073709551616}", "{nm:^4.9}", "{nm", "{nm:٣}", "{nm:^4}⋮", "", "{np:.99999999999999999999}", "{xx}", "{nm:日^4}"]
+SAFE_ALLOC = 1000          # a width / tab width the harness lets the real binary render with
+NO_BT = {"RUST_BACKTRACE": "0"}   # a panic is recognised by its message; symbolising the backtrace of the debug binary takes seconds
+HUGE_ALLOC = 2 ** 50       # an allocation of this many bytes fails at once (nothing is touched)
+
+
+def gen_width_value(rng):
+    edge = [0, 1, 2, 3, 7, 8, 9, 10, 40, 79, 80, 81, 200, 2 ** 15, 2 ** 16 - 1, 2 ** 31, 2 ** 62, 2 ** 63 - 2, 2 ** 63 - 1, 2 ** 63, 2 ** 63 + 1,
+            U64 - 1, U64, 10 ** 30]
+
+    def dec():
+        n = rng.choice(edge) if rng.random() < 0.45 else rng.randint(0, 300)
+        t, r = str(n), rng.random()
+        if r < 0.10:
+            t = "+" + t
+        elif r < 0.16:
+            t = "0" * rng.randint(1, 3) + t
+        elif r < 0.22 and len(t) > 1:
+            t = t[:1] + " " + t[1:]
+        return t
+    k = rng.random()
+    if k < 0.08:
+        return None
+    if k < 0.13:
+        return "variable"
+    if k < 0.35:
+        v = dec()
+    elif k < 0.55:
+        v = "-" + rng.choice(["", " "]) + dec()
+    elif k < 0.80:
+        v = dec() + rng.choice(["", " ", "  "]) + "-" + rng.choice(["", " "]) + dec()
+    else:
+        v = rng.choice(WIDTH_GARBAGE)
+    if rng.random() < 0.25:
+        v = rng.choice(WS + NOT_WS) + v
+    if rng.random() < 0.25:
+        v = v + rng.choice(WS + NOT_WS)
+    return v
+
+
+def gen_startup_case(rng):
+    c = dict(width=gen_width_value(rng),
+             wml=rng.choice(WRAP_MAX) if rng.random() < 0.7 else str(rng.choice([rng.randint(0, 9), rng.randint(0, 10 ** 13), rng.randint(0, U64 - 1)])),
+             mll=rng.choice([0, 1, 10, 100, 3000, 3000, 2 ** 63, U64 - 1, rng.randint(0, U64 - 1)]),
+             tabs=rng.choice([0, 1, 2, 4, 8, 8, 8, rng.randint(0, 40)]),
+             sbs=rng.random() < 0.6, fill=rng.choice([None, None, "ansi", "spaces"]), lnl=None, lnr=None)
+    if rng.random() < 0.08:
+        c["tabs"] = rng.choice([2 ** 63 - 1, 2 ** 63, U64 - 1, 2 ** 62, HUGE_ALLOC])
+    if rng.random() < 0.12:
+        c["lnl"] = rng.choice(LN_FORMATS)
+    if rng.random() < 0.12:
+        c["lnr"] = rng.choice(LN_FORMATS)
+    return c
+
+
+def startup_args(c):
+    a = ["--no-gitconfig", "--wrap-max-lines=" + c["wml"], "--max-line-length=" + str(c["mll"]), "--tabs=" + str(c["tabs"])]
+    if c["width"] is not None:
+        a.append("--width=" + c["width"])
+    if c["sbs"]:
+        a.append("--side-by-side")
+    if c["fill"]:
+        a.append("--line-fill-method=" + c["fill"])
+    if c["lnl"] is not None:
+        a.append("--line-numbers-left-format=" + c["lnl"])
+    if c["lnr"] is not None:
+        a.append("--line-numbers-right-format=" + c["lnr"])
+    return a
+
+
+def startup_request(c, tw):
+    return " ".join(["startup.run", "-" if c["width"] is None else hx(c["width"]), hx(c["wml"]), str(c["mll"]), str(c["tabs"]),
+                     "1" if c["sbs"] else "0", "0" if c["fill"] == "spaces" else "1", hx(c["lnl"] or ""), hx(c["lnr"] or ""), str(tw)])
+
+
+def outcome_of(rc, err):
+    e = err.decode("utf-8", "replace")
+    if rc == "timeout":
+        return "hang"
+    if "panicked at" in e or rc == 101:
+        return "panic"
+    if "memory allocation of" in e or rc in (134, -6):
+        return "abort"
+    if rc == 0:
+        return "ok"
+    if rc == 2 and "should not be possible" not in e:
+        return "fatal"
+    return f"exit{rc}"
+
+
+def show_config_fields(out):
+    d = {}
+    for ln in out.decode("utf-8", "replace").splitlines():
+        if "=" in ln:
+            k, v = ln.split("=", 1)
+            d[k.strip()] = v.strip()
+    return d
+
+
+def startup_sweep(ctx, rep):
+    rng = ctx.rng
+    if not ctx.lean_ok:
+        rep.notes["startup-driver"] = "Lean did not build: start-up correspondence not run"
+        return
+    rc, out, err = ctx.run_delta(["--no-gitconfig", "--show-config"], b"")
+    tw = show_config_fields(out).get("width")
+    if rc != 0 or not (tw or "").isdigit():
+        rep.corr_case("startup.run", False, dict(disagreement=["cannot read the terminal width from --show-config"]))
+        return
+    tw = int(tw)
+    cases = [gen_startup_case(rng) for _ in range(ctx.n(260, 5000))]
+    # the boundary values the theorems name, always
+    for wml, sbs in ((str(U64 - 1), False), (str(U64 - 1), True), (str(U64 - 2), True), (str(10 ** 17), True), (str(10 ** 12 - 1), True),
+                     (str(10 ** 12 - 1), False), ("unlimited", True)):
+        cases.append(dict(width=None, wml=wml, mll=3000, tabs=8, sbs=sbs, fill=None, lnl=None, lnr=None))
+    for w in ("9223372036854775807", "-0", " 50 - 3 ", "80-81", "-81", str(2 ** 62)):
+        cases.append(dict(width=w, wml="2", mll=3000, tabs=8, sbs=True, fill=None, lnl=None, lnr=None))
+    for t in (2 ** 63 - 1, 2 ** 63, U64 - 1):
+        cases.append(dict(width=None, wml="2", mll=3000, tabs=t, sbs=False, fill=None, lnl=None, lnr=None))
+    drv = LineProc(["lake", "env", "lean", "--run", "Driver/Startup.lean"], cwd=LEAN)
+    try:
+        mresp = drv.ask([startup_request(c, tw) for c in cases], timeout=ctx.n(240, 1500))
+        parts = drv.ask([x for c in cases for x in ("startup.wrapmax " + hx(c["wml"]), "startup.tabs " + str(c["tabs"]))], timeout=ctx.n(240, 1500))
+    except Exception as ex:      # noqa
+        rep.corr_case("startup.run", False, dict(disagreement=["model driver failed: " + repr(ex)[:200]]))
+        return
+    if len(mresp) != len(cases) or any(r.startswith("error") for r in mresp):
+        rep.corr_case("startup.run", False, dict(disagreement=["unusable model answers: " + repr([r for r in mresp if r.startswith("error")][:1])]))
+        return
+    shows = parallel_map(lambda c: ctx.run_delta(startup_args(c) + ["--show-config"], b"", timeout=20, env=NO_BT), cases, workers=4)
+    small = SWEEP_DIFFS[1][1].encode()
+
+    def full(cms):
+        c, m, sh = cms
+        if outcome_of(sh[0], sh[2]) != "ok":
+            return None            # start-up already refused (or crashed): the same code runs before any input is read
+        mv = dict(f.split("=", 1) for f in m.split(" ")[1:]) if m.startswith("ok ") else {}
+        wv = mv.get("width", "0")
+        if m.startswith("ok ") and wv != "variable" and SAFE_ALLOC < int(wv) < HUGE_ALLOC:
+            return "skipped"       # the real binary would really allocate that much per line
+        if SAFE_ALLOC < c["tabs"] < HUGE_ALLOC:
+            return "skipped"
+        return ctx.run_delta(startup_args(c), small, timeout=20, env=NO_BT)
+    fulls = parallel_map(full, list(zip(cases, mresp, shows)), workers=4)
+    for i, (c, m, (rc, out, err), fr) in enumerate(zip(cases, mresp, shows, fulls)):
+        args = startup_args(c)
+        case = dict(args=args, model=m, terminal_width=tw)
+        mclass = "ok" if m.startswith("ok ") else "fatal" if m.startswith("fatal") else "panic"
+        iclass = outcome_of(rc, err)
+        rep.case(key=("startup", tuple(args)), nontrivial=True, sample=dict(level="start-up", args=args, model=m[:60], impl=iclass))
+        rep.count("startup:model-" + mclass)
+        rep.count("startup:width-kind:" + ("absent" if c["width"] is None else "relative" if c["width"].strip().startswith("-") else
+                                           "expr" if "-" in c["width"] else "plain"))
+        mv = dict(f.split("=", 1) for f in m.split(" ")[1:]) if mclass == "ok" else {}
+        alloc = mclass == "ok" and int(mv["tabbytes"]) >= HUGE_ALLOC
+        if alloc:
+            rep.count("startup:corr-skipped-allocation")        # whether an allocation of 2^50.. bytes succeeds is the allocator's business
+        else:
+            dis = []
+            if mclass != iclass:
+                dis.append(f"outcome: implementation {iclass} (rc={rc}) vs model {mclass}")
+            elif mclass == "ok":
+                sc = show_config_fields(out)
+                for mk, sk in (("width", "width"), ("mll", "max-line-length"), ("tabbytes", "tabs")):
+                    if mv.get(mk) != sc.get(sk):
+                        dis.append(f"{sk}: implementation {sc.get(sk)} vs model {mv.get(mk)}")
+            rep.corr_case("startup.run", not dis, dict(case, disagreement=dis[:3], stderr=err[-200:].decode("utf-8", "replace")))
+        # the property itself: no crash, at start-up or while rendering
+        if iclass not in ("ok", "fatal"):
+            pw, pt = parts[2 * i], parts[2 * i + 1]
+            if pw.startswith("PANIC"):
+                sig = "startup:panic:wrap-max-lines=usize-max"
+            elif pt.startswith("PANIC"):
+                sig = "startup:panic:tabs:capacity-overflow"
+            elif alloc:
+                sig = "startup:crash:tabs:allocation"
+            elif mclass == "panic" and c["sbs"]:
+                big = pw.startswith("ok ") and int(pw.split()[1]) > 10 ** 12
+                sig = "startup:panic:side-by-side:" + ("wrap-max-lines-huge" if big else "width-huge") + ":max-line-length-overflow"
+            else:
+                sig = "startup:" + iclass + ":unexplained:" + classify_failure(rc, err)
+            rep.count("fail:" + sig)
+            rep.violation(sig, f"delta {' '.join(args)} --show-config -> rc={rc} stderr={err[-300:].decode('utf-8', 'replace')!r}",
+                          dict(args=args + ["--show-config"], input_b64=b64(b"")))
+        elif fr == "skipped":
+            rep.count("startup:full-run-skipped-allocation")
+        elif fr is not None:
+            frc, fout, ferr = fr
+            fclass = outcome_of(frc, ferr)
+            rep.count("startup:full-run-" + fclass)
+            if fclass != iclass:
+                wv = mv.get("width", "0")
+                if wv != "variable" and int(wv) >= HUGE_ALLOC:
+                    sig = "render:crash:width-huge:allocation"
+                else:
+                    sig = "render-after-startup:" + (classify_failure(frc, ferr) or fclass)
+                rep.count("fail:" + sig)
+                rep.violation(sig, f"delta {' '.join(args)} -> rc={frc} stderr={ferr[-300:].decode('utf-8', 'replace')!r}",
+                              dict(args=args, input_b64=b64(small)))
+
+
 def classify_failure(rc, err):
     e = err.decode("utf-8", "replace")
     if rc == "timeout":
@@ -203,7 +420,11 @@ def run(ctx, rep):
     rep.rule = ("(1) machine.run correspondence on well-formed / mutated / hostile line sequences under random unified configurations; "
                 "(2) the real binary (debug build, overflow checks on) on git / plain / combined diffs, structured mutations of them, hostile "
                 "marker lines and raw byte damage x presentation modes x widths 1..200: exit 0, no panic, no hang; non-trivial = mutated or "
-                "hostile input or a non-default mode; distinct by (args, input)")
+                "hostile input or a non-default mode; distinct by (args, input); (3) start-up: generated texts for --width (N, -N, A-B, signs, "
+                "spaces, Unicode blanks, numbers at the edges of isize/usize, garbage), --wrap-max-lines (spellings of no-limit, numbers up to "
+                "and beyond usize::MAX), --max-line-length, --tabs, line-number formats x side-by-side x fill method: the Lean start-up model "
+                "(ok | fatal | panic and the computed width / max_line_length / tab width) against `delta --show-config`, then the same "
+                "options on a small diff (no crash)")
     rng = ctx.rng
     # (1) hook level: implementation panic vs model (which provably never errs)
     cases, meta = [], []
@@ -272,6 +493,9 @@ def run(ctx, rep):
         if site and not (rc == 2 and "panicked" not in e and "should not be possible" not in e and "unreachable" not in e):
             rep.violation(site, f"delta {' '.join(args)} -> rc={rc} stderr={err[-300:].decode('utf-8', 'replace')!r}",
                           dict(args=args, input_b64=b64(data)))
+
+    # (2e) start-up / option-value model against the binary
+    startup_sweep(ctx, rep)
 
     # (2d) diff-stat blocks under --relative-paths (delta as git's pager from a subdirectory): every generated block x
     #      align widths x prefixes
